@@ -1,238 +1,363 @@
-"""C08 index renaming (structural clauses)."""
+"""C08 index renaming: every clause is decided by evaluating the library code, not by its spelling."""
 from __future__ import annotations
 
 import ast
+import itertools
+import re
 
-from ..abseval import Interp, Rec
-from ..model import (AnalysisError, U, Defs, FuncNode, calls_in, call_name, walk_fn, kwarg, enclosing,
-                     enclosing_stmt, short)
-from ..pathcond import conditions
-from . import common
-from .deriv import reaching_assignments
+from ..model import AnalysisError, U, FuncNode, rel, fn_of, short
+from ..symex import Symex, Obj, ClassRef
+from ..terms import T, sym, args_of
+from .. import shapeflow as sf
 
 EXPLANATION = (
-    "R08a: every .subs( call site of the package is classified: argument is an ordered substitution "
-    "list (order_substitutions(...) directly, a local whose reaching definitions are one, or a value "
-    "taken from a verified producer: compare_terms, find_compatible_terms, find_compatible_eri_parts, "
-    "_compare_eri_parts (third tuple component), substitute_contracted(only_build_sub=True)), a dict "
-    "with simultaneous=True, a single (old, new) pair, a forwarding wrapper, or not an index map; a "
-    "raw index dict is a violation. R08b: Index(...) constructor calls are exactly "
-    "Indices._new_symbol plus four frozen exceptions. R08c: the registry fields _symbols, "
-    "_generic_indices, _counter are touched only inside class Indices. R08d: registry pairing in "
-    "get_indices / _gen_generic_idx / get_generic_indices (constructor only on a cache miss, stored "
-    "before returned, removed from the generic pool; generic names filtered against used names, "
-    "materialised through get_indices). R08e: contracted-only renaming with (space, spin) preserved "
-    "and zero guard in Term.substitute_contracted / substitute_with_generic (+ expand_itmd, "
-    "reduce_expr). R08f: decision tables of order_substitutions (all 625 maps on 4 indices incl. "
-    "chains, cycles, many-to-one: sequential application equals the simultaneous map) and "
-    "get_lowest_avail_indices / split_idx_string / index_space on small inputs. R08g: "
-    "minimize_tensor_indices on all 620 index tuples of length <= 3 over {i,j,k,a,b} x 4 target sets: targets stay, the other "
-    "indices get the lowest unused names in order of first appearance, and the returned permutations reproduce the result.")
+    "R08a: the provenance of the argument of every .subs( call of the package is evaluated over a small shape lattice "
+    "(sa/shapeflow: flow-sensitive abstract interpretation, functions evaluated through with the shapes of the actual "
+    "arguments, containers carry the join of what is stored in them): the argument has to be the unmodified result of "
+    "order_substitutions (wherever it was built and however it travelled: return values of compare_terms, the nested "
+    "dicts of find_compatible_terms / find_compatible_eri_parts, tuple components of _compare_eri_parts, "
+    "substitute_contracted(only_build_sub=True), locals, loops, unpacking), a single (old, new) pair, a dict with "
+    "simultaneous=True, or a parameter of the enclosing function that is forwarded (then every call of that function "
+    "is a site). R08b: the calls that resolve (through the imports) to the Index class occur only in "
+    "Indices._new_symbol plus four frozen functions. R08c: the registry fields are read or written only inside class "
+    "Indices, which is a Singleton; Singleton.__call__ is evaluated: one construction per class, the identical "
+    "instance afterwards. R08d: bounded model check of the registry - Indices.__init__, get_indices, "
+    "get_generic_indices, _gen_generic_idx, _new_symbol, is_cached_index, get_symbols and the Index properties are "
+    "evaluated by sa/symex on concrete request histories (all sequences of up to two requests from 15 request kinds, "
+    "selected triples; thorough: all triples) against an independently written reference registry: identical record for "
+    "a repeated (name, spin), also inside one request, distinct records otherwise, requested name/space/spin, generic "
+    "names i3.. that were never handed out or requested before, result order, every returned record known to "
+    "is_cached_index. R08e: Term.substitute_contracted / substitute_with_generic are evaluated on abstract terms "
+    "(index counter with multiplicities, provided or counted target indices, spins) with the real registry code "
+    "underneath: the map handed to order_substitutions has exactly the contracted indices as keys, the images are "
+    "the registry records of the lowest names of the same space that no target index of the same (space, spin) "
+    "carries (resp. fresh generic records), spin preserved, injective, never a target; the list that reaches "
+    "sympy's subs applied pair by pair equals that map; a substitution that annihilates a non-zero term raises; "
+    "return_sympy / only_build_sub deliver the documented values; Term.contracted / Term.target partition the "
+    "indices. R08f: order_substitutions on all 625 maps over four indices (sequential == simultaneous), "
+    "get_lowest_avail_indices / split_idx_string / index_space against reference tables, Container.permute on all "
+    "sequences of up to three transpositions over four indices (composed list == transpositions one after another). "
+    "R08g: minimize_tensor_indices on all 620 index tuples of length <= 3 over {i,j,k,a,b} x 4 target sets plus "
+    "spin cases: targets stay, the other indices get the lowest unused names per (space, spin) in order of first "
+    "appearance, and the returned permutations reproduce the result.")
 ASSUMPTIONS = [
-    "R08f is evaluated on all index maps over four indices and small name sets (bounded, not exhaustive)",
-    "sympy's subs applies a list of pairs sequentially",
+    "R08a shapes over-approximate: attributes are followed only on objects whose constructor call is evaluated (an "
+    "ordered list parked in an attribute of `self` between two methods is 'not established'); methods on receivers of "
+    "unknown class are resolved by method name and signature",
+    "R08d/R08e/R08f/R08g are evaluated on bounded request histories, index maps over four indices and small name sets "
+    "(bounded, not exhaustive)",
+    "sympy's subs applies a list of pairs sequentially; sympy itself (Dummy identity, subs) is modelled, not analysed",
+    "the four functions that may construct an Index outside the registry are a frozen list (ownership is decided by "
+    "function name)",
 ]
 
 ORD = "ORD"
-PRODUCERS = {
-    "order_substitutions": ORD,
-    "compare_terms": ORD,
-    "find_compatible_terms": ("dict", ("dict", ORD)),
-    "find_compatible_eri_parts": ("dict", ("dict", ORD)),
-    "_compare_eri_parts": ("list", ("tuple", [None, None, ORD, None])),
-}
 INDEX_CTOR_FROZEN = {
     "indices:Indices._new_symbol": "the one registry constructor",
     "func:_contraction": "fresh occ/virt dummy of the general-index contraction (never registered on purpose)",
     "indices:order_substitutions": "temporary index for cyclic substitutions, removed by the final substitution",
     "derivative:derivative": "placeholder symbol x of the symbolic differentiation, substituted back",
 }
+BASE = {"occ": "ijklmno", "virt": "abcdefgh", "general": "pqrstuvw"}
+FIRST_GENERIC = 3
+REG = "indices:Indices"
+IDX = "indices:Index"
 
 
-class Prov:
-    def __init__(self, fn):
-        self.fn = fn
-
-    def type_of(self, node, depth=0):
-        if depth > 8 or node is None:
-            return None
-        if isinstance(node, ast.Call):
-            name = call_name(node)
-            if name in PRODUCERS:
-                return PRODUCERS[name]
-            if name == "substitute_contracted":
-                kw = kwarg(node, "only_build_sub", 1)
-                return ORD if kw is not None and U(kw) == "True" else None
-            if name == "items" and isinstance(node.func, ast.Attribute):
-                t = self.type_of(node.func.value, depth + 1)
-                if isinstance(t, tuple) and t[0] == "dict":
-                    return ("list", ("tuple", [None, t[1]]))
-                return None
-            return None
-        if isinstance(node, ast.Subscript):
-            t = self.type_of(node.value, depth + 1)
-            if isinstance(t, tuple) and t[0] == "dict":
-                return t[1]
-            if isinstance(t, tuple) and t[0] == "list" and not isinstance(node.slice, ast.Slice):
-                return t[1]
-            if isinstance(t, tuple) and t[0] == "tuple" and isinstance(node.slice, ast.Constant):
-                return t[1][node.slice.value]
-            if isinstance(node.slice, ast.Constant) and node.slice.value == "sub_list":
-                return self._variant_data(node)
-            return None
-        if isinstance(node, ast.Name):
-            return self.name_type(node, depth)
-        return None
-
-    def _variant_data(self, node):
-        return None
-
-    def name_type(self, node, depth):
-        from .deriv import _block_chain
-        name = node.id
-        st = enclosing_stmt(node)
-        live = reaching_assignments(self.fn, name, st)
-        loops = [p for p in _parents(node) if isinstance(p, (ast.For, ast.comprehension))]
-        binding = None
-        for lp in loops:
-            tgt = lp.target
-            names = [U(e) for e in tgt.elts] if isinstance(tgt, ast.Tuple) else [U(tgt)]
-            if name in names:
-                binding = (lp, tgt, names)
-                break
-        if binding is not None:
-            lp, tgt, names = binding
-            chain_st = _block_chain(st)
-            dom = [a for a in live if isinstance(lp, ast.For) and any(a is x for x in ast.walk(lp))
-                   and _block_chain(a) and _block_chain(a)[0] in chain_st]
-            if dom:
-                live = dom
-            else:
-                t = self.type_of(lp.iter, depth + 1)
-                if not (isinstance(t, tuple) and t[0] == "list"):
-                    return None
-                el = t[1]
-                if isinstance(tgt, ast.Tuple):
-                    if isinstance(el, tuple) and el[0] == "tuple" and len(el[1]) == len(names):
-                        return el[1][names.index(name)]
-                    return None
-                return el
-        if not live:
-            return None
-        ts = []
-        for a in live:
-            t = a.targets[0]
-            if isinstance(t, ast.Name):
-                ts.append(self.type_of(a.value, depth + 1))
-            else:
-                ts.append(None)
-        if all(x == ts[0] for x in ts):
-            return ts[0]
-        return None
+# ---------------------------------------------------------------------- R08a
 
 
-def _parents(n):
-    p = getattr(n, "_parent", None)
-    while p is not None:
-        yield p
-        p = getattr(p, "_parent", None)
+def _classify(fr, pos, kw, star, wrappers):
+    """(ok, kind) for the arguments of one substitution call evaluated in frame ``fr``."""
+    if isinstance(star, sf.Param) and star.kind == "var" and star.fn is fr.fn and not pos \
+            and isinstance(kw.get("**"), sf.Param) and kw["**"].fn is fr.fn:
+        return True, "forwarding wrapper (*args, **kwargs of the enclosing function)"
+    simul = kw.get("simultaneous")
+    if isinstance(simul, sf.Const) and simul.value is True:
+        return True, "simultaneous dict"
+    if star is None and "**" not in kw and len(pos) == 2:
+        return True, "single (old, new) pair"
+    if star is None and len(pos) == 1:
+        return _classify_value(fr, pos[0], wrappers)
+    return False, f"call shape with {len(pos)} positional arguments{' and *args' if star is not None else ''}"
 
 
-def verify_producers(ctx, rule):
-    # compare_terms
-    fn = ctx.model.fn("simplify:find_compatible_terms.compare_terms")
-    pv = Prov(fn)
-    for r in common.returns_of(fn):
-        if U(r.value) == "None":
-            continue
-        ctx.check(rule, r, pv.type_of(r.value) == ORD, "compare_terms returns an ordered substitution list",
-                  f"compare_terms returns `{U(r.value)}`, which is not the result of order_substitutions", key="producer compare_terms")
-    fn = ctx.model.fn("simplify:find_compatible_terms")
-    st = [a for a in walk_fn(fn, nested=False) if isinstance(a, ast.Assign) and isinstance(a.targets[0], ast.Subscript)
-          and U(a.targets[0].value).startswith("compatible_terms")]
-    vals = sorted(U(a.value) for a in st)
-    ok = vals == ["sub", "{}"]
-    subdef = [a for a in walk_fn(fn, nested=False) if isinstance(a, ast.Assign) and U(a.targets[0]) == "sub"]
-    ok = ok and len(subdef) == 1 and call_name(subdef[0].value) == "compare_terms"
-    r = common.returns_of(fn, nested=False)
-    ok = ok and U(r[-1].value) == "compatible_terms"
-    ctx.check(rule, fn, ok, "find_compatible_terms stores compare_terms results only", "find_compatible_terms stores other values",
-              key="producer find_compatible_terms")
-    fn = ctx.model.fn("reduce_expr:find_compatible_eri_parts")
-    rs = sorted(U(r.value) for r in common.returns_of(fn))
-    ctx.check(rule, fn, rs == ["find_compatible_terms(eri_parts)", "{0: {}}"], "find_compatible_eri_parts forwards find_compatible_terms",
-              f"find_compatible_eri_parts returns {rs}", key="producer find_compatible_eri_parts")
-    fn = ctx.model.fn("factor_intermediates:_compare_eri_parts")
-    ap = [c for c in calls_in(fn) if call_name(c) == "append" and U(c.func.value) == "valid"]
-    pv = Prov(fn)
-    ok = len(ap) == 1 and isinstance(ap[0].args[0], ast.Tuple) and len(ap[0].args[0].elts) == 4 \
-        and pv.type_of(ap[0].args[0].elts[2]) == ORD
-    rs = [U(r.value) for r in common.returns_of(fn) if U(r.value) != "None"]
-    ctx.check(rule, fn, ok and rs == ["valid if valid else None"], "_compare_eri_parts: third tuple component is ordered",
-              "_compare_eri_parts no longer returns (.., .., ordered list, ..) tuples", key="producer _compare_eri_parts")
-    fn = ctx.model.fn("expr_container:Term.substitute_contracted")
-    pv = Prov(fn)
-    r = [x for x in common.returns_of(fn) if ("only_build_sub", True) in conditions(x)]
-    ctx.check(rule, fn, len(r) == 1 and pv.type_of(r[0].value) == ORD, "substitute_contracted(only_build_sub) returns the ordered list",
-              "substitute_contracted(only_build_sub=True) does not return an ordered list", key="producer substitute_contracted")
+def _classify_value(fr, v, wrappers):
+    if isinstance(v, sf._Cell):
+        v = v.find()
+    if isinstance(v, sf.Mark) and v.tag == ORD:
+        if v.dirty:
+            return False, "an ordered substitution list that was modified after order_substitutions built it"
+        return True, "ordered list"
+    if isinstance(v, sf.Param) and v.kind == "pos" and v.fn is fr.fn:
+        wrappers.setdefault(v.fn, set()).add(v.name)
+        return True, f"parameter `{v.name}` forwarded (the callers are sites)"
+    return False, f"a value of shape {v!r}"
 
 
 def r08a(ctx, modules=None):
     rule = "R08a"
-    verify_producers(ctx, rule)
-    n = 0
-    kinds = {}
-    for ref, fn in ctx.model.all_functions():
+    model = ctx.model
+    entries = []
+    for ref, fn in model.all_functions():
         if modules and ref.split(":")[0] not in modules:
             continue
-        pv = Prov(fn)
-        for c in calls_in(fn, nested=False):
-            if call_name(c) != "subs" or not isinstance(c.func, ast.Attribute):
+        if getattr(fn, "_fn", None) is None:      # nested functions are evaluated with their enclosing function
+            entries.append((ref, fn))
+    wrappers = {}
+    for _ in range(4):
+        sites = {}
+        known = {k: set(v) for k, v in wrappers.items()}
+
+        def on_call(flow, fr, node, attr, recv, pos, kw, star):
+            if attr == "subs":
+                sites.setdefault(node, []).append(_classify(fr, pos, kw, star, wrappers))
+            # calls of functions that forward a parameter into a substitution
+            cands = []
+            if attr is None:
+                if isinstance(recv, sf.Fn):
+                    cands = [recv]
+            elif isinstance(recv, (sf.Inst, sf.Cls)):
+                m = flow.find_method(recv.module, recv.clsq, attr)
+                if m is not None:
+                    cands = [sf.Fn(m, [], m._module, bound=recv if isinstance(recv, sf.Inst) else None)]
+            elif attr != "subs":
+                cands = [sf.Fn(m, [], m._module, bound=sf.Inst(m._module, m._cls)) for m in flow.methods_named(attr)
+                         if m in known and sf._accepts(m, len(pos), kw, star)]
+            for f in cands:
+                for p in sorted(known.get(f.node, ())):
+                    b = flow.bind(f.node, pos, kw, star, f.bound)
+                    ok, kind = _classify_value(fr, b.get(p, sf.TOP), wrappers)
+                    sites.setdefault(node, []).append((ok, f"{getattr(f.node, 'name', '?')}({p}=...): {kind}"))
+        flow = sf.Flow(model, {"order_substitutions": ORD}, on_call=on_call)
+        for ref, fn in entries:
+            flow.entry(fn)
+        if {k: set(v) for k, v in wrappers.items()} == known:
+            break
+    else:
+        raise AnalysisError("R08a: the set of forwarding functions does not stabilise")
+    # every syntactic .subs( call of the analysed functions must have been reached by the evaluation
+    n = 0
+    kinds = {}
+    for ref, fn in entries:
+        ordinal = 0
+        for c in ast.walk(fn):
+            if not (isinstance(c, ast.Call) and isinstance(c.func, ast.Attribute) and c.func.attr == "subs"):
                 continue
+            ordinal += 1
             n += 1
-            kind = None
-            if any(isinstance(a, ast.Starred) for a in c.args) and any(k.arg is None for k in c.keywords):
-                kind = "forwarding wrapper"
-            elif kwarg(c, "simultaneous") is not None and U(kwarg(c, "simultaneous")) == "True":
-                kind = "simultaneous dict"
-            elif len(c.args) == 2:
-                if isinstance(c.args[1], ast.Constant) and isinstance(c.args[1].value, (int, float)):
-                    kind = "not an index map"
-                else:
-                    kind = "single pair"
-            elif len(c.args) == 1 and not c.keywords:
-                t = pv.type_of(c.args[0])
-                if t == ORD:
-                    kind = "ordered list"
-            kinds[kind] = kinds.get(kind, 0) + 1
-            ctx.check(rule, c, kind is not None, f"{ref.split(':')[1]}: {kind}",
-                      f"`{short(c, 80)}`: the substitution argument is not an ordered substitution list, a single pair or a "
-                      "simultaneous dict; sequential application of a raw index map captures indices (i->j, j->k)",
-                      fn=ref, key=f"subs {short(c.args[0], 50) if c.args else ''}")
+            if c not in sites:
+                raise AnalysisError(f"R08a: the .subs( call at {rel(c)} is not reached by the shape evaluation")
+            res = sites.pop(c)
+            bad = [k for ok, k in res if not ok]
+            good = sorted({k for ok, k in res if ok})
+            for k in good:
+                kinds[k.split(" (")[0].split(" `")[0]] = kinds.get(k.split(" (")[0].split(" `")[0], 0) + 1
+            ctx.check(rule, c, not bad, f"{fn_of(c).split(':')[1]}: {', '.join(good)}",
+                      f"`{short(c, 80)}`: the substitution argument is {bad[0] if bad else ''}, not an ordered substitution list "
+                      "(result of order_substitutions), a single pair or a simultaneous dict; sequential application of a raw "
+                      "index map captures indices (i->j, j->k)", fn=fn_of(c), key=f"subs site {ordinal} of {fn_of(c)}")
+    # calls of forwarding functions (sites without the attribute name subs)
+    for c, res in sites.items():
+        bad = [k for ok, k in res if not ok]
+        ctx.check(rule, c, not bad, f"{fn_of(c).split(':')[1]}: call of a forwarding function: {sorted({k for ok, k in res if ok})}",
+                  f"`{short(c, 80)}`: {bad[0] if bad else ''} is handed to a function that forwards it into .subs(", fn=fn_of(c),
+                  key=f"forwarded {short(c, 60)}")
     if not modules:
-        ctx.floor(rule, ".subs( call sites package-wide", n, 25)
+        ctx.floor(rule, ".subs( call sites package-wide", n, 15)
     ctx.note(f"R08a site kinds: {kinds}")
+
+
+# ---------------------------------------------------------------------- the evaluated world
+
+
+class World:
+    """The registry and the index records, built and driven by the library's own code (sa/symex, concrete values)."""
+
+    def __init__(self, ctx, what="C08", hooks=None):
+        self.ctx, self.model = ctx, ctx.model
+        self.created = []
+        self._ss = {}
+        hk = {"Index": self._mk_index, "Indices": lambda sx, a, kw: self.reg,
+              "Permutation": self._named("symmetry:Permutation", lambda p, q: ("P", p, q)),
+              "PermutationProduct": self._named("symmetry:PermutationProduct", lambda args: list(args))}
+        hk.update(hooks or {})
+        self.sx = Symex(self.model, inline=lambda q: True, hooks=hk, what=what, obj_identity=True,
+                        attr_hook=self._class_attr, max_steps=400000)
+        self.reg = Obj(REG, "registry")
+        self.call(f"{REG}.__init__", self=self.reg)
+
+    def _named(self, clsref, f):
+        """hook that receives the arguments bound to the parameter names of the class constructor"""
+        def hook(sx, a, kw):
+            m = sx.find_method(clsref, "__new__") or sx.find_method(clsref, "__init__")
+            if m is None:
+                raise AnalysisError(f"C08: constructor of {clsref} not found")
+            return f(**sx.bind(m[0], a, kw, True, True))
+        return hook
+
+    def _class_attr(self, sx, obj, attr, node):
+        if isinstance(obj, Obj) and obj.cls:
+            mod, _, q = obj.cls.partition(":")
+            m = self.model.modules.get(mod)
+            if m is not None and q in m.classes:
+                v = sx.getattr(ClassRef(m, q), attr, node)
+                if not (isinstance(v, T) and v.op == "attr"):
+                    return v
+        return NotImplemented
+
+    def _mk_index(self, sx, a, kw):
+        kw = dict(kw)
+        name = a[0] if a else kw.pop("name", None)
+        rec = Obj(IDX, f"{name}#{len(self.created)}")
+        rec.attrs.update(name=name, assumptions0=kw, dummy_index=len(self.created))
+        self.created.append(rec)
+        return rec
+
+    def outcome(self, ref, /, **args):
+        fn = self.model.fn(ref) if isinstance(ref, str) else ref
+        outs = self.sx.run(fn, lambda: dict(args))
+        if len(outs) != 1:
+            raise AnalysisError(f"C08: concrete evaluation of {getattr(fn, 'name', ref)} forked into {len(outs)} paths: {outs[:3]}")
+        return outs[0]
+
+    def call(self, ref, /, **args):
+        o = self.outcome(ref, **args)
+        if o.kind != "return":
+            raise _Failed(f"{ref} raised {o.exc}")
+        return o.value
+
+    def space_spin(self, rec):
+        """(space, spin) as the library's Index properties decode the record."""
+        if id(rec) not in self._ss:
+            v = self.call(f"{IDX}.space_and_spin", self=rec)
+            self._ss[id(rec)] = tuple(v) if isinstance(v, (tuple, list)) else v
+        return self._ss[id(rec)]
+
+    def describe(self, rec):
+        if not isinstance(rec, Obj):
+            return repr(rec)
+        try:
+            sp, s = self.space_spin(rec)
+        except Exception:
+            sp, s = "?", "?"
+        return f"{rec.attrs.get('name')}{'_' + s if s else ''}[{sp}]"
+
+    def symbols(self, names, spins=None):
+        """Index records through the library's get_symbols; None when the registry does not deliver what was asked
+        for (that is R08d's finding, the caller skips)."""
+        try:
+            recs = self.call("indices:get_symbols", indices=names, spins=spins)
+        except _Failed:
+            return None
+        want = _split(names) if isinstance(names, str) else list(names)
+        sp = list(spins) if spins is not None else [""] * len(want)
+        if not isinstance(recs, list) or len(recs) != len(want):
+            return None
+        for r, nm, s in zip(recs, want, sp):
+            if not isinstance(r, Obj) or r.attrs.get("name") != nm or self.space_spin(r) != (_space(nm), s):
+                return None
+        return recs
+
+    def cached(self, rec):
+        return self.call(f"{REG}.is_cached_index", self=self.reg, index=rec)
+
+
+class _Failed(Exception):
+    pass
+
+
+def _split(s):
+    return re.findall(r"[a-zA-Z]\d*", s)
+
+
+def _space(name):
+    for sp, letters in BASE.items():
+        if name[0] in letters:
+            return sp
+    raise KeyError(name)
+
+
+def _lowest(n, used, space):
+    """Reference: the n lowest names of the space (i..o, i1..o1, ...) that are not in ``used``."""
+    out, k = [], 0
+    while len(out) < n:
+        for c in BASE[space]:
+            nm = c + (str(k) if k else "")
+            if nm not in used and len(out) < n:
+                out.append(nm)
+        k += 1
+    return out
+
+
+def _apply_seq(pairs, items):
+    cur = list(items)
+    for o, n in pairs:
+        cur = [n if c is o else c for c in cur]
+    return cur
+
+
+def _pairs(v):
+    """list of (old, new) pairs or None"""
+    if not isinstance(v, (list, tuple)):
+        return None
+    out = []
+    for p in v:
+        if not isinstance(p, (list, tuple)) or len(p) != 2:
+            return None
+        out.append((p[0], p[1]))
+    return out
+
+
+# ---------------------------------------------------------------------- R08b
+
+
+def _is_index_cls(v):
+    return isinstance(v, sf.Cls) and v.clsq == "Index" and v.module.name == "indices"
+
+
+def _index_names(flow, m):
+    """Local names of module ``m`` (imports anywhere in the module, own classes) that are the Index class, and the
+    names that are modules through which it is reachable."""
+    direct, mods = set(), set()
+    for name in set(m.imports) | set(m.classes):
+        v = flow.module_name(m, name)
+        if _is_index_cls(v):
+            direct.add(name)
+        elif isinstance(v, sf.Mod) and _is_index_cls(flow.module_name(v.module, "Index")):
+            mods.add(name)
+    return direct, mods
 
 
 def r08b(ctx):
     rule = "R08b"
+    flow = sf.Flow(ctx.model, {})
     n = 0
-    for ref, fn in ctx.model.all_functions():
-        if getattr(fn, "_fn", None) is not None:
-            continue
-        for c in calls_in(fn):
-            if isinstance(c.func, ast.Name) and c.func.id == "Index":
-                n += 1
-                ok = ref in INDEX_CTOR_FROZEN
-                ctx.check(rule, c, ok, f"{ref}: {INDEX_CTOR_FROZEN.get(ref)}",
-                          f"`{U(c)}` constructs an Index outside the registry (Indices._new_symbol); two requests for the same "
-                          "name would give different index objects", fn=ref, key=f"Index ctor in {ref}")
+    for mname, m in ctx.model.modules.items():
+        ctx.model.used_modules.add(mname)
+        direct, mods = _index_names(flow, m)
+        for c in ast.walk(m.tree):
+            if not isinstance(c, ast.Call):
+                continue
+            f = c.func
+            if not (isinstance(f, ast.Name) and f.id in direct or isinstance(f, ast.Attribute) and f.attr == "Index"
+                    and isinstance(f.value, ast.Name) and f.value.id in mods):
+                continue
+            n += 1
+            q = getattr(c, "_fn", None)
+            ref = f"{mname}:{q}" if q else f"{mname}:<module>"
+            top = ref
+            while top not in INDEX_CTOR_FROZEN and "." in top.split(":")[1] and \
+                    top.split(":")[1].rsplit(".", 1)[0] in m.functions:
+                top = f"{mname}:{top.split(':')[1].rsplit('.', 1)[0]}"      # nested helper of a frozen function
+            ok = top in INDEX_CTOR_FROZEN
+            ctx.check(rule, c, ok, f"{top}: {INDEX_CTOR_FROZEN.get(top)}",
+                      f"`{U(c)}` constructs an Index outside the registry (Indices._new_symbol); two requests for the same "
+                      "name would give different index objects", fn=ref, key=f"Index ctor in {top}")
     ctx.floor(rule, "Index(...) constructor calls", n, 1)
-    for m in ctx.model.modules.values():
-        for node in m.tree.body:
-            for c in ast.walk(node) if not isinstance(node, (ast.FunctionDef, ast.ClassDef)) else []:
-                if isinstance(c, ast.Call) and isinstance(c.func, ast.Name) and c.func.id == "Index":
-                    ctx.bad(rule, c, "module-level Index construction", key="module level Index")
+
+
+# ---------------------------------------------------------------------- R08c
 
 
 def r08c(ctx):
@@ -242,160 +367,407 @@ def r08c(ctx):
     for mname, m in ctx.model.modules.items():
         ctx.model.used_modules.add(mname)
         for node in ast.walk(m.tree):
+            name = None
             if isinstance(node, ast.Attribute) and node.attr in fields:
-                inside = getattr(node, "_cls", None) == "Indices" and mname == "indices"
-                if inside:
-                    n_inside += 1
-                else:
-                    ctx.bad(rule, node, f"registry field `{node.attr}` accessed outside class Indices", key=f"{mname} {node.attr}")
+                name = node.attr
+            elif isinstance(node, ast.Constant) and node.value in fields and isinstance(getattr(node, "_parent", None), ast.Call):
+                name = node.value       # getattr(x, "_symbols") / setattr / vars()[...]
+            if name is None:
+                continue
+            inside = getattr(node, "_cls", None) == "Indices" and mname == "indices"
+            if inside:
+                n_inside += 1
+            else:
+                ctx.bad(rule, node, f"registry field `{name}` accessed outside class Indices", key=f"{mname} {name}")
     ctx.floor(rule, "registry accesses inside Indices (positive fixture)", n_inside, 10)
     ctx.ok(rule, None, f"{n_inside} registry accesses, all inside class Indices", fn="indices:Indices", key="registry ownership")
-    # the class is a singleton
-    cls = ctx.model.cls("indices:Indices")
-    ctx.check(rule, cls, any(U(k.value) == "Singleton" for k in cls.keywords if k.arg == "metaclass"), "Indices is a singleton",
-              "Indices is no longer a singleton", key="singleton")
+    # the class is a singleton: its metaclass resolves to misc:Singleton ...
+    cls = ctx.model.cls(REG)
+    flow = sf.Flow(ctx.model, {})
+    meta = [flow.ev(k.value, sf._Frame(None, [{}], cls._module, False)) for k in cls.keywords if k.arg == "metaclass"]
+    ctx.check(rule, cls, len(meta) == 1 and isinstance(meta[0], sf.Cls) and meta[0].clsq == "Singleton" and meta[0].module.name == "misc",
+              "Indices is a singleton", "Indices is no longer created through the Singleton metaclass", key="singleton")
+    # ... and Singleton.__call__ evaluated: one construction per class, the identical instance afterwards
     sg = ctx.model.fn("misc:Singleton.__call__")
-    body = [U(s) for s in sg.body]
-    ctx.check(rule, sg, body == ["if cls not in cls._instances:\n    cls._instances[cls] = super(Singleton, cls).__call__(*args, **kwargs)",
-                                 "return cls._instances[cls]"], "singleton returns the cached instance", "Singleton.__call__ changed",
+    made = []
+
+    def construct(sx, a, kw):
+        o = Obj(None, f"instance{len(made)}")
+        made.append(o)
+        return o
+    sup = Obj(None, "super")
+    sup.attrs["__call__"] = construct
+    sx = Symex(ctx.model, inline=lambda q: True, hooks={"super": lambda sx, a, kw: sup}, obj_identity=True, what="Singleton.__call__")
+    registry = {}
+    c1, c2 = Obj(None, "class1"), Obj(None, "class2")
+    for c in (c1, c2):
+        c.attrs["_instances"] = registry
+    got = []
+    for c in (c1, c1, c2, c1, c2):
+        outs = sx.run(sg, lambda: dict(cls=c, args=(), kwargs={}))
+        got.append(outs[0].value if len(outs) == 1 and outs[0].kind == "return" else None)
+    ok = all(isinstance(g, Obj) for g in got) and got[0] is got[1] is got[3] and got[2] is got[4] and got[0] is not got[2] \
+        and len(made) == 2
+    ctx.check(rule, sg, ok, "Singleton.__call__: one construction per class, the identical instance afterwards",
+              f"Singleton.__call__ evaluated on the request sequence A A B A B returns {got} with {len(made)} constructions",
               key="singleton call")
+
+
+# ---------------------------------------------------------------------- R08d
+
+
+class RefRegistry:
+    """The documented behaviour of the registry, written down independently of the library."""
+
+    def __init__(self):
+        self.obj, self.pool, self.counter, self.n = {}, {}, {}, 0
+
+    def get(self, name, spin):
+        sp = _space(name)
+        k = (sp, spin, name)
+        if k not in self.obj:
+            self.obj[k] = self.n
+            self.n += 1
+            pool = self.pool.get((sp, spin), [])
+            if name in pool:
+                pool.remove(name)
+        return self.obj[k]
+
+    def get_indices(self, names, spins):
+        names = _split(names) if isinstance(names, str) else list(names)
+        spins = [""] * len(names) if spins is None else list(spins)
+        if len(names) != len(spins):
+            raise ValueError("length")
+        out = {}
+        for nm, s in zip(names, spins):
+            out.setdefault((_space(nm), s), []).append((self.get(nm, s), nm))
+        return out
+
+    def generic(self, request):
+        out = {}
+        for key, n in request.items():
+            if n == 0:
+                continue
+            parts = key.split("_")
+            if len(parts) > 2:
+                raise ValueError(key)
+            sp, spin = parts[0], (parts[1] if len(parts) == 2 else "")
+            pool = self.pool.setdefault((sp, spin), [])
+            while n > len(pool):
+                c = self.counter.get((sp, spin), FIRST_GENERIC)
+                pool.extend(b + str(c) for b in BASE[sp] if (sp, spin, b + str(c)) not in self.obj)
+                self.counter[(sp, spin)] = c + 1
+            out.update(self.get_indices(pool[:n], [spin] * n))
+        return out
+
+    def symbols(self, names, spins):
+        names = _split(names) if isinstance(names, str) else list(names)
+        spins = [""] * len(names) if spins is None else list(spins)
+        return [(self.get(nm, s), nm, _space(nm), s) for nm, s in zip(names, spins)]
+
+
+REQUESTS = [
+    ("get", "ij", None), ("get", "iji", None), ("get", ["i3", "a"], None), ("get", "ia", "ab"), ("get", ["j3"], None),
+    ("get", "i", "a"), ("get", ["p4", "p4"], ["b", "b"]),
+    ("gen", {"occ": 2}, None), ("gen", {"occ": 1, "virt_a": 1}, None), ("gen", {"occ": 8}, None),
+    ("gen", {"general_b": 1, "occ": 0}, None),
+    ("sym", "ji", None), ("sym", "aia", "aba"),
+    ("get", "ij", "a"), ("gen", {"occ_a_b": 1}, None),
+]
+TRIPLES = [(7, 4, 7), (2, 7, 7), (9, 4, 9), (7, 2, 9), (1, 11, 1), (8, 3, 8), (4, 9, 7), (6, 10, 6), (5, 0, 12), (12, 5, 3),
+           (7, 7, 4), (2, 4, 9), (10, 6, 10), (11, 1, 0), (3, 12, 8)]
+
+
+def _label(op):
+    kind, a, b = op
+    if kind == "gen":
+        return "generic(" + ", ".join(f"{k}={v}" for k, v in a.items()) + ")"
+    return f"{'get_indices' if kind == 'get' else 'get_symbols'}({a!r}{', ' + repr(b) if b is not None else ''})"
+
+
+def _history(ctx, seq):
+    """Evaluates one request history with the library code and with the reference; returns None or a message."""
+    w = World(ctx, what="registry history")
+    ref = RefRegistry()
+    seen, ref_seen = {}, {}
+
+    def num(table, x):
+        return table.setdefault(x if not isinstance(x, Obj) else id(x), len(table))
+    observed = []
+    for step, op in enumerate(seq):
+        kind, a, b = op
+        if kind == "get":
+            o = w.outcome(f"{REG}.get_indices", self=w.reg, indices=a if isinstance(a, str) else list(a), spins=b if b is None or isinstance(b, str) else list(b))
+        elif kind == "gen":
+            o = w.outcome(f"{REG}.get_generic_indices", self=w.reg, kwargs=dict(a))
+        else:
+            o = w.outcome("indices:get_symbols", indices=a if isinstance(a, str) else list(a), spins=b)
+        try:
+            want = ref.get_indices(a, b) if kind == "get" else ref.generic(a) if kind == "gen" else ref.symbols(a, b)
+        except ValueError:
+            want = "raise"
+        if o.kind != "return":
+            got = "raise"
+        elif kind == "sym":
+            if not isinstance(o.value, list) or not all(isinstance(r, Obj) for r in o.value):
+                return f"step {step + 1} {_label(op)} returns {o.value!r}"
+            got = [(num(seen, r), r.attrs.get("name")) + tuple(w.space_spin(r)) for r in o.value]
+            observed.extend(o.value)
+        else:
+            if not isinstance(o.value, dict) or not all(isinstance(v, list) and all(isinstance(r, Obj) for r in v) for v in o.value.values()):
+                return f"step {step + 1} {_label(op)} returns {o.value!r}"
+            got = []
+            for key, recs in o.value.items():
+                for r in recs:
+                    if tuple(w.space_spin(r)) != tuple(key):
+                        return (f"step {step + 1} {_label(op)}: the record {w.describe(r)} is listed under {key}")
+                got.append((tuple(key), [(num(seen, r), r.attrs.get("name")) for r in recs]))
+                observed.extend(recs)
+        if want != "raise":
+            if kind == "sym":
+                want = [(num(ref_seen, i), nm, sp, s) for i, nm, sp, s in want]
+            else:
+                want = [(k, [(num(ref_seen, i), nm) for i, nm in v]) for k, v in want.items()]
+        if got != want:
+            return (f"step {step + 1} {_label(op)} gives {got}, the documented registry gives {want} "
+                    "(numbers: identity of the record by first appearance in the history)")
+    for r in observed:
+        if w.cached(r) is not True:
+            return f"the returned record {w.describe(r)} is not known to the registry afterwards (is_cached_index)"
+    return None
 
 
 def r08d(ctx):
     rule = "R08d"
-    fn = ctx.model.fn("indices:Indices.get_indices")
-    new = [c for c in calls_in(fn) if call_name(c) == "_new_symbol"]
-    ctx.floor(rule, "constructor call in get_indices", len(new), 1)
-    lp = enclosing(new[0], ast.For)
-    body = lp.body
-    texts = [U(s) for s in body]
-    i_new = next(i for i, s in enumerate(body) if new[0] in list(ast.walk(s)))
-    hit = [i for i, s in enumerate(body) if isinstance(s, ast.If) and U(s.test) == "symbol is not None"]
-    ok = len(hit) == 1 and hit[0] < i_new and isinstance(body[hit[0]].body[-1], ast.Continue) \
-        and any("append(symbol)" in U(x) for x in body[hit[0]].body)
-    ctx.check(rule, lp, ok, "constructor reached only on a cache miss; hits return the cached object",
-              "the cache-hit path of get_indices changed", key="cache hit")
-    look = [a for a in body if isinstance(a, ast.Assign) and U(a.targets[0]) == "symbol" and ".get(" in U(a.value)]
-    ctx.check(rule, lp, len(look) == 1 and U(look[0].value) == "self._symbols[space][spin].get(idx, None)", "lookup by (space, spin, name)",
-              "cache lookup changed", key="lookup")
-    store = [i for i, s in enumerate(body) if U(s) == "self._symbols[space][spin][idx] = symbol"]
-    ctx.check(rule, lp, len(store) == 1 and store[0] > i_new, "new symbol stored under [space][spin][name]", "new symbols are not stored",
-              key="store")
-    rm = [i for i, s in enumerate(body) if isinstance(s, ast.Try) and "self._generic_indices[space][spin].remove(idx)" in U(s)]
-    ctx.check(rule, lp, len(rm) == 1 and rm[0] > i_new, "name removed from the generic pool", "generic pool is not updated", key="pool remove")
-    ctx.check(rule, lp, U(new[0]) == "self._new_symbol(idx, space, spin)", "symbol built with the name's space and the requested spin",
-              "constructor arguments changed", key="ctor args")
-    sp = [a for a in body if isinstance(a, ast.Assign) and U(a.targets[0]) == "space"]
-    ctx.check(rule, lp, len(sp) == 1 and U(sp[0].value) == "index_space(idx)", "space from the first letter", "space determination changed",
-              key="space")
-    g = ctx.model.fn("indices:Indices._gen_generic_idx")
-    a = {U(x.targets[0]): U(x.value) for x in walk_fn(g) if isinstance(x, ast.Assign)}
-    ok = a.get("new_idx") == "[idx + counter for idx in self.base[space] if idx + counter not in used_names]" \
-        and a.get("used_names") == "self._symbols[space][spin]" and a.get("counter") == "str(self._counter[space][spin])"
-    ctx.check(rule, g, ok, "new generic names skip names already handed out", "generation of generic names changed", key="gen filter")
-    inc = [n for n in walk_fn(g) if isinstance(n, ast.AugAssign)]
-    ctx.check(rule, g, len(inc) == 1 and U(inc[0]) == "self._counter[space][spin] += 1", "counter advanced once per generation",
-              "counter update changed", key="gen counter")
-    ext = [c for c in calls_in(g) if call_name(c) == "extend"]
-    ctx.check(rule, g, len(ext) == 1 and U(ext[0]) == "self._generic_indices[space][spin].extend(new_idx)", "pool extended", "pool update changed",
-              key="gen extend")
-    gg = ctx.model.fn("indices:Indices.get_generic_indices")
-    a = {U(x.targets[0]): U(x.value) for x in walk_fn(gg) if isinstance(x, ast.Assign)}
-    ctx.check(rule, gg, a.get("idx") == "self._generic_indices[space][spin][:n]", "names drawn from the front of the pool",
-              "generic names are not drawn from the pool", key="draw")
-    up = [c for c in calls_in(gg) if call_name(c) == "update" and U(c.func.value) == "ret"]
-    ctx.check(rule, gg, len(up) == 1 and U(up[0].args[0]) == "self.get_indices(idx, spins)", "materialised through get_indices (leaves the pool)",
-              "generic indices bypass get_indices", key="materialise")
-    wl = [n for n in walk_fn(gg) if isinstance(n, ast.While)]
-    ctx.check(rule, gg, len(wl) == 1 and U(wl[0].test) == "n > len(self._generic_indices[space][spin])"
-              and U(wl[0].body[0]) == "self._gen_generic_idx(space, spin)", "pool refilled until n names are available", "refill loop changed",
-              key="refill")
-    init = ctx.model.fn("indices:Indices.__init__")
-    cls = ctx.model.cls("indices:Indices")
-    ic = [U(n.value) for n in cls.body if isinstance(n, ast.Assign) and U(n.targets[0]) == "_initial_counter"]
-    ctx.check(rule, cls, ic == ["3"], "generic names start at suffix 3 (i, i1, i2 reserved for explicit requests)",
-              f"initial counter {ic}", key="initial counter")
+    fn = ctx.model.fn(f"{REG}.get_indices")
+    seqs = [(i,) for i in range(len(REQUESTS))] + list(itertools.product(range(len(REQUESTS)), repeat=2))
+    if ctx.tier == "thorough":
+        seqs += list(itertools.product(range(len(REQUESTS)), repeat=3))
+    else:
+        seqs += TRIPLES
+    n = 0
+    for s in seqs:
+        seq = [REQUESTS[i] for i in s]
+        label = " ; ".join(_label(op) for op in seq)
+        msg = _history(ctx, seq)
+        n += 1
+        ctx.check(rule, fn, msg is None, f"history [{label}] behaves like the documented registry",
+                  f"request history [{label}]: {msg}", fn=REG, key=f"history {label}")
+    ctx.floor(rule, "request histories evaluated", n, 150)
+    # the constructor and the decoding properties: round trip over all (space, spin)
+    w = World(ctx, what="_new_symbol")
+    ns = ctx.model.fn(f"{REG}._new_symbol")
+    for sp in BASE:
+        for spin in ("", "a", "b"):
+            o = w.outcome(ns, self=w.reg, name="x", space=sp, spin=spin)
+            ok = o.kind == "return" and isinstance(o.value, Obj) and o.value.attrs.get("name") == "x" \
+                and tuple(w.space_spin(o.value)) == (sp, spin)
+            ctx.check(rule, ns, ok, f"_new_symbol(x, {sp}, {spin!r}) is decoded as ({sp}, {spin!r}) by Index.space / Index.spin",
+                      f"_new_symbol('x', {sp!r}, {spin!r}) gives {o} which Index.space/Index.spin decode as "
+                      f"{w.space_spin(o.value) if o.kind == 'return' and isinstance(o.value, Obj) else '-'}", key=f"new symbol {sp} {spin}")
+    for sp, spin, why in (("core", "", "unknown space"), ("occ", "c", "unknown spin")):
+        o = w.outcome(ns, self=w.reg, name="x", space=sp, spin=spin)
+        ctx.check(rule, ns, o.kind == "raise", f"_new_symbol refuses an {why}", f"_new_symbol accepts the {why} {sp!r}/{spin!r}",
+                  key=f"new symbol {why}")
+    # get_symbols: Index inputs are returned as they are, nothing for nothing
     gs = ctx.model.fn("indices:get_symbols")
-    rets = [U(r.value) for r in common.returns_of(gs)]
-    ctx.check(rule, gs, rets == ["[]", "[indices]", "indices", "ret"], "Index inputs returned unchanged", f"get_symbols returns {rets}",
-              key="get_symbols returns")
-    a = {U(x.targets[0]): U(x.value) for x in walk_fn(gs) if isinstance(x, ast.Assign)}
-    ctx.check(rule, gs, a.get("symbols") == "Indices().get_indices(indices, spins)" and
-              a.get("ret") == "[symbols[index_space(idx), spin].pop() for idx, spin in zip(indices, spins)]",
-              "symbols returned in input order", "order reconstruction in get_symbols changed", key="get_symbols order")
-    rv = [n for n in walk_fn(gs) if isinstance(n, ast.For) and U(n.iter) == "symbols.values()"]
-    ctx.check(rule, gs, len(rv) == 1 and U(rv[0].body[0]) == "val.reverse()", "lists reversed before popping", "reverse/pop pairing changed",
-              key="get_symbols reverse")
-    ns = ctx.model.fn("indices:Indices._new_symbol")
-    tab = {}
-    for x in walk_fn(ns):
-        if isinstance(x, ast.Assign) and isinstance(x.targets[0], ast.Subscript) and U(x.targets[0].value) == "assumptions":
-            cond = sorted(t for t, pol in conditions(x) if pol and "==" in t)
-            tab[U(x.targets[0].slice)] = cond[-1] if cond else "?"
-    ctx.check(rule, ns, tab == {"'below_fermi'": "space == 'occ'", "'above_fermi'": "space == 'virt'", "'alpha'": "spin == 'a'",
-                                "'beta'": "spin == 'b'"}, "assumptions encode space and spin", f"assumption table {tab}", key="assumptions")
-    for prop, want in (("spin", ["'a'", "'b'", "''"]), ("space", ["'occ'", "'virt'", "'general'"])):
-        f = ctx.model.fn(f"indices:Index.{prop}")
-        rets = [U(r.value) for r in common.returns_of(f)]
-        tests = [U(n.test) for n in walk_fn(f) if isinstance(n, ast.If)]
-        wt = ["self.assumptions0.get('alpha')", "self.assumptions0.get('beta')"] if prop == "spin" else \
-            ["self.assumptions0.get('below_fermi')", "self.assumptions0.get('above_fermi')"]
-        ctx.check(rule, f, rets == want and tests == wt, f"Index.{prop} decodes the assumptions", f"Index.{prop}: {tests} -> {rets}",
-                  key=f"Index.{prop}")
+    recs = w.symbols("ja", None)
+    if recs is None:
+        ctx.bad(rule, gs, "get_symbols('ja') does not return the records of j and a in that order", key="get_symbols order")
+    else:
+        ctx.ok(rule, gs, "get_symbols('ja') -> [j, a]", key="get_symbols order")
+        j, a = recs
+        for arg, want, what in ((j, [j], "a single Index"), ([a, j], [a, j], "a list of Index"), ("", [], "an empty string"), ([], [], "an empty list")):
+            o = w.outcome(gs, indices=arg, spins=None)
+            ok = o.kind == "return" and isinstance(o.value, list) and len(o.value) == len(want) and all(x is y for x, y in zip(o.value, want))
+            ctx.check(rule, gs, ok, f"get_symbols of {what}: returned unchanged", f"get_symbols of {what} gives {o}", key=f"get_symbols {what}")
+
+
+# ---------------------------------------------------------------------- R08e
+
+
+class _Sympy:
+    """Model of the wrapped sympy expression: records what reaches ``subs`` and answers with a chosen result."""
+
+    def __init__(self, name, result):
+        self.obj = Obj(None, name)
+        self.result = result
+        self.got = []
+        self.obj.attrs["subs"] = self._subs
+
+    def _subs(self, sx, a, kw):
+        self.got.append((list(a), dict(kw)))
+        return self.result
+
+
+def _term(counter, provided, sympy):
+    t = Obj("expr_container:Term", "term")
+    t.attrs.update(_idx_counter=tuple(counter), provided_target_idx=provided, sympy=sympy, assumptions={})
+    return t
+
+
+def _expected_parts(counter, provided):
+    """(contracted, target) of a term by the documented convention."""
+    if provided is not None:
+        return [s for s, _ in counter if not any(s is p for p in provided)], list(provided)
+    return [s for s, n in counter if n], [s for s, n in counter if not n]
+
+
+# (names, spins, multiplicity - 1 per index, provided target (positions) or None)
+TERMS = [
+    ("klcia", None, [1, 1, 1, 0, 0], None),
+    ("ji", None, [1, 1], None),
+    ("jji", "baa", [1, 1, 0], None),
+    ("mnkij", None, [1, 1, 1, 0, 0], None),
+    ("ijab", None, [0, 0, 0, 0], [0, 2]),
+    ("qpi", None, [1, 1, 1], None),
+    ("iiab", "abab", [1, 1, 0, 1], None),
+    ("ia", None, [0, 0], None),
+    ("ijklmnoi1a", None, [1, 1, 1, 1, 1, 1, 1, 1, 0], None),
+    ("kjcb", None, [1, 1, 1, 1], [1]),
+]
 
 
 def r08e(ctx):
     rule = "R08e"
-    for meth, var in (("substitute_contracted", "s"), ("substitute_with_generic", "idx")):
+    ZERO = Obj(None, "S.Zero")
+    S = Obj(None, "S")
+    S.attrs["Zero"] = ZERO
+    spy = {}
+
+    def spy_order(sx, a, kw):
+        b = sx.bind(ctx.model.fn("indices:order_substitutions"), a, kw, False, True)
+        spy["dict"] = dict(b["subsdict"]) if isinstance(b.get("subsdict"), dict) else b.get("subsdict")
+        return NotImplemented       # ... and the library's own order_substitutions is evaluated
+    w = World(ctx, what="substitute", hooks={"S": S, "order_substitutions": spy_order})
+    n_eval = 0
+    setup_ok = True
+    for meth in ("substitute_contracted", "substitute_with_generic"):
         fn = ctx.model.fn(f"expr_container:Term.{meth}")
-        lp = [n for n in walk_fn(fn) if isinstance(n, ast.For) and U(n.iter) == "self.contracted"]
-        ok = len(lp) == 1 and any("contracted[key].append" in U(x) for x in lp[0].body) \
-            and any(isinstance(x, ast.If) and "space_and_spin" in U(x.test) for x in lp[0].body)
-        ctx.check(rule, fn, ok, f"{meth}: keys of the substitution come from self.contracted, grouped by (space, spin)",
-                  f"{meth}: source of the indices to rename changed", key=f"{meth} keys")
-        guard = [n for n in walk_fn(fn) if isinstance(n, ast.Raise) and
-                 any("substituted is S.Zero" in t and pol for t, pol in conditions(n))]
-        ok = len(guard) == 1 and any("self.sympy is S.Zero" in t and not pol for t, pol in conditions(guard[0]))
-        ctx.check(rule, fn, ok, f"{meth}: substitution that annihilates the term is refused", f"{meth}: zero guard removed", key=f"{meth} zero guard")
-    fn = ctx.model.fn("expr_container:Term.substitute_contracted")
-    us = [n for n in walk_fn(fn) if isinstance(n, ast.For) and U(n.iter) == "set(self.target)"]
-    ctx.check(rule, fn, len(us) == 1 and any("used[key].add(s.name)" in U(x) for x in us[0].body), "excluded names = names of the target indices",
-              "source of the excluded names changed", key="used names")
-    la = [c for c in calls_in(fn) if call_name(c) == "get_lowest_avail_indices"]
-    ok = len(la) == 1 and [U(a).replace(" ", "") for a in la[0].args] == ["len(idx_list)", "used.get((space,spin),[])", "space"]
-    ctx.check(rule, fn, ok, "lowest names of the same space, targets of the same (space, spin) excluded", "request for new names changed",
-              key="lowest names")
-    gs = {}
-    for a in walk_fn(fn):
-        if isinstance(a, ast.Assign) and U(a.targets[0]) == "new_idx" and call_name(a.value) == "get_symbols":
-            gs["spin" if ("spin", True) in conditions(a) else "nospin"] = U(a.value)
-    ctx.check(rule, fn, gs == {"spin": "get_symbols(new_idx, spin * len(idx_list))", "nospin": "get_symbols(new_idx)"},
-              "new indices carry the same spin", f"{gs}", key="same spin")
-    up = [c for c in calls_in(fn) if call_name(c) == "update" and U(c.func.value) == "sub"]
-    ctx.check(rule, fn, len(up) == 1 and U(up[0].args[0]) == "{o: n for o, n in zip(idx_list, new_idx)}", "old -> new by position within the group",
-              "pairing of old and new indices changed", key="pairing")
-    fn = ctx.model.fn("expr_container:Term.substitute_with_generic")
-    a = {U(x.targets[0] if isinstance(x, ast.Assign) else x.target): U(x.value) for x in walk_fn(fn)
-         if isinstance(x, (ast.Assign, ast.AnnAssign)) and x.value is not None}
-    ctx.check(rule, fn, a.get("kwargs") == "{f'{space}_{spin}' if spin else space: len(indices) for (space, spin), indices in contracted.items()}"
-              and a.get("generic") == "Indices().get_generic_indices(**kwargs)", "as many fresh generic indices per (space, spin) as contracted ones",
-              "request for generic indices changed", key="generic request")
-    ctx.check(rule, fn, a.get("new_indices") == "generic[key]", "replacement indices of the same (space, spin)", "group lookup changed",
-              key="generic group")
-    # Term.contracted / target: complementary
+        for names, spins, mult, prov in TERMS:
+            recs = w.symbols(names, spins)
+            label = f"{meth} on {names}{'/' + spins if spins else ''} counts {mult} target {prov}"
+            if recs is None:
+                ctx.bad(rule, fn, f"{label}: the registry does not deliver the requested index records (see R08d)", key=f"{label} setup")
+                setup_ok = False
+                continue
+            counter = list(zip(recs, mult))
+            provided = tuple(recs[k] for k in prov) if prov is not None else None
+            contracted, target = _expected_parts(counter, provided)
+            everything = [s for s, _ in counter]
+            # expected images
+            want = {}
+            if meth == "substitute_contracted":
+                groups = {}
+                for s in contracted:
+                    groups.setdefault(tuple(w.space_spin(s)), []).append(s)
+                for (sp, spin), grp in groups.items():
+                    used = {t.attrs["name"] for t in target if tuple(w.space_spin(t)) == (sp, spin)}
+                    for s, nm in zip(grp, _lowest(len(grp), used, sp)):
+                        want[id(s)] = (nm, sp, spin)
+            for flags, sympy_zero, subs_zero in (({}, False, False), ({}, False, True), ({}, True, True),
+                                                 ({"return_sympy": True}, False, False), ({"return_sympy": False}, False, False),
+                                                 ({"only_build_sub": True}, False, False)):
+                if meth == "substitute_with_generic" and "only_build_sub" in flags:
+                    continue
+                result = ZERO if subs_zero else Obj(None, "substituted")
+                sm = _Sympy("term.sympy", result)
+                me = _term(counter, provided, ZERO if sympy_zero else sm.obj)
+                if sympy_zero:
+                    ZERO.attrs["subs"] = sm._subs
+                before = len(w.created)
+                spy.clear()
+                o = w.outcome(fn, self=me, **flags)
+                ZERO.attrs.pop("subs", None)
+                n_eval += 1
+                case = f"{label} {flags or ''}{' term is zero' if sympy_zero else ''}{' result is zero' if subs_zero else ''}"
+                # (1) the zero guard / the returned value
+                if subs_zero and not sympy_zero:
+                    ctx.check(rule, fn, o.kind == "raise", f"{case}: a substitution that annihilates the term is refused",
+                              f"{case}: the substitution turns a non-zero term into zero and the result is returned ({o})", key=f"{case} zero guard")
+                    continue
+                if o.kind != "return":
+                    ctx.bad(rule, fn, f"{case}: raises {o.exc}", key=f"{case} outcome")
+                    continue
+                if flags.get("only_build_sub"):
+                    ordered = _pairs(o.value)
+                    ok_val = ordered is not None and not sm.got
+                    what = "returns the ordered list without substituting"
+                else:
+                    ordered = _pairs(sm.got[0][0][0]) if len(sm.got) == 1 and len(sm.got[0][0]) == 1 and not sm.got[0][1] else None
+                    want_sympy = flags.get("return_sympy", meth == "substitute_with_generic")
+                    if want_sympy:
+                        ok_val = o.value is result
+                    else:
+                        ok_val = isinstance(o.value, T) and o.value.op == "call" and o.value.args[0] == "Expr" \
+                            and args_of(o.value).get("e") == result.term
+                    what = "returns the substituted " + ("sympy object" if want_sympy else "expression wrapped as Expr")
+                ctx.check(rule, fn, ok_val and ordered is not None, f"{case}: {what}",
+                          f"{case}: expected that it {what} after one subs(list of pairs); got {o} with subs calls {sm.got}", key=f"{case} value")
+                if ordered is None:
+                    continue
+                # (2) the map that is handed to order_substitutions
+                d = spy.get("dict")
+                if not isinstance(d, dict):
+                    ctx.bad(rule, fn, f"{case}: order_substitutions is not called with the index map (got {d!r})", key=f"{case} map")
+                    continue
+                keys_ok = len(d) == len(contracted) and all(any(k is c for k in d) for c in contracted)
+                ctx.check(rule, fn, keys_ok, f"{case}: exactly the contracted indices are renamed",
+                          f"{case}: the renamed indices are {[w.describe(k) for k in d]}, the contracted indices are "
+                          f"{[w.describe(c) for c in contracted]} (targets {[w.describe(t) for t in target]})", key=f"{case} keys")
+                bad = []
+                images = list(d.values())
+                for k, v in d.items():
+                    if not isinstance(v, Obj) or v.cls != IDX:
+                        bad.append(f"{w.describe(k)} -> {v!r}")
+                        continue
+                    ss = tuple(w.space_spin(v))
+                    if ss != tuple(w.space_spin(k)):
+                        bad.append(f"{w.describe(k)} -> {w.describe(v)} changes space or spin")
+                    if any(v is t for t in target):
+                        bad.append(f"{w.describe(k)} -> {w.describe(v)} is a target index")
+                    if sum(1 for x in images if x is v) > 1:
+                        bad.append(f"{w.describe(v)} is the image of two indices")
+                    if w.cached(v) is not True:
+                        bad.append(f"{w.describe(v)} is not a registry record")
+                    if meth == "substitute_contracted":
+                        if id(k) in want and (v.attrs.get("name"),) + ss != want[id(k)]:
+                            bad.append(f"{w.describe(k)} -> {w.describe(v)}, the lowest unused name of its space and spin gives "
+                                       f"{want[id(k)][0]}{'_' + want[id(k)][2] if want[id(k)][2] else ''}")
+                    elif not any(v is c for c in w.created[before:]):
+                        bad.append(f"{w.describe(k)} -> {w.describe(v)} which existed before the call (not a fresh generic index)")
+                    elif any(v is s for s in everything):
+                        bad.append(f"{w.describe(k)} -> {w.describe(v)} which occurs in the term")
+                ctx.check(rule, fn, not bad, f"{case}: images have the same space and spin, are no targets, injective, "
+                          + ("lowest unused names" if meth == "substitute_contracted" else "unused generic indices"),
+                          f"{case}: {'; '.join(bad[:3])}", key=f"{case} images")
+                # (3) what reaches subs, applied pair by pair, is that map
+                universe = everything + [v for v in images if isinstance(v, Obj) and not any(v is s for s in everything)]
+                got = _apply_seq(ordered, universe)
+                exp = [next((v for k, v in d.items() if k is s), s) for s in universe]
+                ctx.check(rule, fn, all(g is e for g, e in zip(got, exp)), f"{case}: the list applied pair by pair equals the simultaneous map",
+                          f"{case}: applying {[(w.describe(a), w.describe(b)) for a, b in ordered]} one after another maps "
+                          f"{[w.describe(s) for s in universe]} to {[w.describe(g) for g in got]}, the simultaneous map gives "
+                          f"{[w.describe(e) for e in exp]}", key=f"{case} sequential")
+    if setup_ok:
+        ctx.floor(rule, "evaluations of the substitute methods", n_eval, 60)
+    # Term.contracted / Term.target: complementary parts of the index counter
     ct = ctx.model.fn("expr_container:Term.contracted")
     tg = ctx.model.fn("expr_container:Term.target")
-    rc = [U(r.value) for r in common.returns_of(ct)]
-    rt = [U(r.value) for r in common.returns_of(tg)]
-    ctx.check(rule, ct, rc == ["tuple((s for s, _ in self._idx_counter if s not in target))", "tuple((s for s, n in self._idx_counter if n))"],
-              "contracted = not target / occurs more than once", f"Term.contracted returns {rc}", key="contracted")
-    ctx.check(rule, tg, rt == ["target", "tuple((s for s, n in self._idx_counter if not n))"], "target = provided / occurs once",
-              f"Term.target returns {rt}", key="target")
-    # Container.permute composes into one ordered map
-    pm = ctx.model.fn("expr_container:Container.permute")
-    r = common.returns_of(pm)
-    ctx.check(rule, pm, U(r[-1].value) == "self.subs(order_substitutions(sub))", "permute applies one ordered map", "permute return changed",
-              key="permute")
+    for names, spins, mult, prov in TERMS:
+        recs = w.symbols(names, spins)
+        if recs is None:
+            continue
+        counter = list(zip(recs, mult))
+        provided = tuple(recs[k] for k in prov) if prov is not None else None
+        wc, wt = _expected_parts(counter, provided)
+        for f, want, what in ((ct, wc, "contracted"), (tg, wt, "target")):
+            o = w.outcome(f, self=_term(counter, provided, None))
+            ok = o.kind == "return" and isinstance(o.value, tuple) and len(o.value) == len(want) and all(x is y for x, y in zip(o.value, want))
+            ctx.check(rule, f, ok, f"Term.{what} of {names} counts {mult} provided {prov}: {[w.describe(x) for x in want]}",
+                      f"Term.{what} of the index counter {[(w.describe(s), n) for s, n in counter]} with provided target "
+                      f"{None if provided is None else [w.describe(p) for p in provided]} gives {o}, expected {[w.describe(x) for x in want]}",
+                      key=f"{what} {names} {mult} {prov}")
 
 
 # ---------------------------------------------------------------------- R08f
@@ -403,115 +775,123 @@ def r08e(ctx):
 
 def r08f(ctx):
     rule = "R08f"
-    import itertools
+    w = World(ctx, what="order_substitutions")
     fn = ctx.model.fn("indices:order_substitutions")
-    names = ["i", "j", "k", "l"]
-    n_maps = 0
-    for images in itertools.product(names + [None], repeat=4):
-        idx = {n: Rec("Index", name=n) for n in names}
-        sub = {}
-        for o, n in zip(names, images):
-            if n is not None:
-                sub[idx[o]] = idx[n]
-        # a valid renaming maps distinct indices to distinct indices or merges deliberately (many-to-one allowed)
-        tmp = []
-
-        def mk(i, node, a, kw):
-            r = Rec("Index", name=f"tmp{len(tmp)}")
-            tmp.append(r)
-            return r
-        d = dict(sub)
-        kind, val = Interp({"Index": mk}, what="order_substitutions").call(fn, {"subsdict": d})
-        n_maps += 1
-        if kind == "raise":
-            ctx.bad(rule, fn, f"order_substitutions raised {val} on {_show(sub)}", key=f"map {_show(sub)}")
+    idx = w.symbols("ijkl")
+    if idx is None:
+        ctx.bad(rule, fn, "the registry does not deliver the records of i, j, k, l (see R08d)", key="setup")
+        return
+    names = "ijkl"
+    for images in itertools.product(list(range(4)) + [None], repeat=4):
+        sub = {idx[o]: idx[n] for o, n in enumerate(images) if n is not None}
+        show = "{" + ", ".join(f"{names[o]}->{names[n]}" for o, n in enumerate(images) if n is not None) + "}"
+        o = w.outcome(fn, subsdict=dict(sub))
+        ordered = _pairs(o.value) if o.kind == "return" else None
+        if ordered is None:
+            ctx.bad(rule, fn, f"order_substitutions on {show}: {o}", key=f"map {show}")
             continue
-        # apply sequentially to the tuple (i, j, k)
-        cur = [idx[n] for n in names]
-        for o, n in val:
-            cur = [n if c is o else c for c in cur]
-        want = [sub.get(idx[n], idx[n]) if False else _get(sub, idx[n]) for n in names]
-        ok = all(c is w for c, w in zip(cur, want))
-        ctx.check(rule, fn, ok, f"{_show(sub)}: sequential == simultaneous",
-                  f"index map {_show(sub)}: applying the ordered list {[(o.name, n.name) for o, n in val]} one after another gives "
-                  f"{[c.name for c in cur]}, the simultaneous substitution gives {[w.name for w in want]}", key=f"map {_show(sub)}")
-    # get_lowest_avail_indices
+        cur = _apply_seq(ordered, idx)
+        want = [sub.get(s, s) for s in idx]
+        ctx.check(rule, fn, all(c is x for c, x in zip(cur, want)), f"{show}: sequential == simultaneous",
+                  f"index map {show}: applying the ordered list {[(w.describe(a), w.describe(b)) for a, b in ordered]} one after "
+                  f"another gives {[w.describe(c) for c in cur]}, the simultaneous substitution gives {[w.describe(x) for x in want]}",
+                  key=f"map {show}")
+    # get_lowest_avail_indices against the reference
     gl = ctx.model.fn("indices:get_lowest_avail_indices")
-    base = {"occ": "ijklmno", "virt": "abcdefgh", "general": "pqrstuvw"}
-    env = {"Indices": Rec("Indices", base=base)}
-    for space, used, n in (("occ", [], 2), ("occ", ["i", "k"], 3), ("occ", list("ijklmno"), 2), ("virt", ["a", "b1"], 9),
-                           ("general", ["p", "q", "p1"], 8), ("occ", ["j1", "i"], 8)):
-        kind, val = Interp(env, what="get_lowest_avail_indices").call(gl, {"n": n, "used": list(used), "space": space})
-        pool = list(base[space])
-        k = 1
-        while len(pool) < len(used) + n:
-            pool += [c + str(k) for c in base[space]]
-            k += 1
-        want = [x for x in pool if x not in used][:n]
-        ctx.check(rule, gl, kind == "return" and val == want, f"lowest {n} free {space} names given {used}: {want}",
-                  f"get_lowest_avail_indices({n}, {used}, {space}) gives {val}, expected {want}", key=f"lowest {space} {used} {n}")
+    cases = [("occ", [], 2), ("occ", ["i", "k"], 3), ("occ", list("ijklmno"), 2), ("virt", ["a", "b1"], 9), ("general", ["p", "q", "p1"], 8),
+             ("occ", ["j1", "i"], 8), ("virt", [], 0), ("general", ["w"], 17), ("occ", ["i1", "i2", "o"], 15), ("virt", ["c"], 1)]
+    for space, used, n in cases:
+        for u in (list(used), set(used)):
+            o = w.outcome(gl, n=n, used=u, space=space)
+            want = _lowest(n, set(used), space)
+            ctx.check(rule, gl, o.kind == "return" and o.value == want, f"lowest {n} free {space} names given {sorted(used)}: {want}",
+                      f"get_lowest_avail_indices({n}, {sorted(used)}, {space}) gives {o}, expected {want}",
+                      key=f"lowest {space} {sorted(used)} {n} {type(u).__name__}")
     sp = ctx.model.fn("indices:split_idx_string")
-    for s, want in (("ij12a3b", ["i", "j12", "a3", "b"]), ("i", ["i"]), ("a10b", ["a10", "b"]), ("", [])):
-        kind, val = Interp({}, what="split_idx_string").call(sp, {"str_tosplit": s})
-        ctx.check(rule, sp, kind == "return" and val == want, f"split '{s}' -> {want}", f"split_idx_string('{s}') gives {val}", key=f"split {s}")
+    for s in ("ij12a3b", "i", "a10b", "", "i1", "pq2r33", "abc"):
+        o = w.outcome(sp, str_tosplit=s)
+        ctx.check(rule, sp, o.kind == "return" and o.value == _split(s), f"split '{s}' -> {_split(s)}", f"split_idx_string('{s}') gives {o}",
+                  key=f"split {s}")
     isp = ctx.model.fn("indices:index_space")
-    for s, want in (("i", "occ"), ("o3", "occ"), ("a", "virt"), ("h12", "virt"), ("p", "general"), ("w1", "general")):
-        kind, val = Interp(env, what="index_space").call(isp, {"idx": s})
-        ctx.check(rule, isp, kind == "return" and val == want, f"{s} -> {want}", f"index_space('{s}') gives {val}", key=f"space {s}")
-    kind, val = Interp({**env, "Inputerror": Rec("class", name="Inputerror")}, what="index_space").call(isp, {"idx": "x"})
-    ctx.check(rule, isp, kind == "raise", "unknown letters refused", "unknown index letters accepted", key="space x")
-    # Container.permute: transpositions one after another == composed map
+    for s in ("i", "o3", "a", "h12", "p", "w1", "m", "e2", "t"):
+        o = w.outcome(isp, idx=s)
+        ctx.check(rule, isp, o.kind == "return" and o.value == _space(s), f"{s} -> {_space(s)}", f"index_space('{s}') gives {o}", key=f"space {s}")
+    o = w.outcome(isp, idx="x")
+    ctx.check(rule, isp, o.kind == "raise", "unknown letters refused", "unknown index letters accepted", key="space x")
+    # Container.permute: the list that reaches subs equals the transpositions applied one after another
     pm = ctx.model.fn("expr_container:Container.permute")
-    for perms in ([("i", "j")], [("i", "j"), ("j", "k")], [("i", "j"), ("i", "j")], [("i", "j"), ("k", "i")], [("i", "j"), ("j", "k"), ("k", "i")]):
-        idx = {n: Rec("Index", name=n) for n in names}
-        captured = {}
-
-        def osub(i, node, a, kw):
-            captured["map"] = a[0]
-            return a[0]
-        me = Rec("self", subs=lambda i, node, a, kw: a[0])
-        kind, val = Interp({"order_substitutions": osub}, what="Container.permute").call(
-            pm, {"self": me, "perms": [(idx[a], idx[b]) for a, b in perms]})
-        cur = {n: idx[n] for n in names}
-        # expected: apply transpositions one after another to the index names
-        state = [idx[n] for n in names]
+    transp = list(itertools.combinations(range(4), 2))
+    seqs = [()] + [s for k in (1, 2, 3) for s in itertools.product(transp, repeat=k)]
+    for perms in seqs:
+        sm = _Sympy("container.sympy", Obj(None, "permuted"))
+        me = Obj("expr_container:Container", "container")
+        me.attrs.update(sympy=sm.obj, assumptions={})
+        o = w.outcome(pm, self=me, perms=tuple((idx[a], idx[b]) for a, b in perms))
+        state = list(idx)
         for a, b in perms:
             state = [idx[b] if s is idx[a] else idx[a] if s is idx[b] else s for s in state]
-        got = captured.get("map")
-        res = None
-        if isinstance(got, dict):
-            res = [_get(got, idx[n]) for n in names]
-        ok = kind == "return" and res is not None and all(r is s for r, s in zip(res, state))
-        ctx.check(rule, pm, ok, f"P{perms}: composed map equals successive transpositions",
-                  f"permute{perms}: composed map gives {[r.name for r in res] if res else None}, successive transpositions give "
-                  f"{[s.name for s in state]}", key=f"permute {perms}")
+        show = " ".join(f"P_{names[a]}{names[b]}" for a, b in perms) or "no permutation"
+        ordered = _pairs(sm.got[0][0][0]) if len(sm.got) == 1 and len(sm.got[0][0]) == 1 and not sm.got[0][1] else None
+        if o.kind != "return" or ordered is None:
+            ctx.bad(rule, pm, f"permute({show}): {o}; calls of subs: {sm.got}", key=f"permute {show}")
+            continue
+        res = _apply_seq(ordered, idx)
+        ctx.check(rule, pm, all(r is s for r, s in zip(res, state)), f"{show}: composed list equals successive transpositions",
+                  f"permute({show}): the list handed to subs {[(w.describe(a), w.describe(b)) for a, b in ordered]} applied pair by "
+                  f"pair gives {[w.describe(r) for r in res]}, the transpositions one after another give {[w.describe(s) for s in state]}",
+                  key=f"permute {show}")
+
+
+# ---------------------------------------------------------------------- R08g
 
 
 def r08g(ctx):
-    """minimize_tensor_indices on all index tuples of length <= 3 over {i,j,k,a,b}"""
+    """minimize_tensor_indices on all index tuples of length <= 3 over {i,j,k,a,b} (+ spin cases)"""
     rule = "R08g"
-    import itertools
     fn = ctx.model.fn("indices:minimize_tensor_indices")
-    gl = ctx.model.fn("indices:get_lowest_avail_indices")
-    base = {"occ": "ijklmno", "virt": "abcdefgh", "general": "pqrstuvw"}
-    space = {c: sp for sp, letters in base.items() for c in letters}
-    pool = {}
+    w = World(ctx, what="minimize_tensor_indices")
+    plain = w.symbols("ijkab")
+    spinful = w.symbols("ijiab", "aabab")
+    if plain is None or spinful is None:
+        ctx.bad(rule, fn, "the registry does not deliver the requested index records (see R08d)", key="setup")
+        return
+    pool = {(r.attrs["name"], ""): r for r in plain}
+    pool.update({(r.attrs["name"], w.space_spin(r)[1]): r for r in spinful})
 
-    def sym(name):
-        if name not in pool:
-            sp = space[name[0]]
-            pool[name] = Rec("Index", name=name, space=sp, spin="", space_and_spin=(sp, ""))
-        return pool[name]
-
-    def get_symbols(i, node, a, kw):
-        return [sym(n) for n in a[0]]
-
-    def lowest(i, node, a, kw):
-        k, v = Interp({"Indices": Rec("Indices", base=base)}, what="get_lowest_avail_indices").call(
-            gl, {"n": a[0], "used": list(a[1]), "space": a[2]})
-        return v
-    env = {"get_symbols": get_symbols, "get_lowest_avail_indices": lowest,
-           "Permutation": lambda i, node, a, kw: (a[0], a[1]), "PermutationProduct": lambda i, node, a, kw: list(a[0])}
+    def evaluate(tpl, tg, label):
+        """tpl: tuple of (name, spin); tg: {(space, spin): [names]}"""
+        inp = tuple(pool[x] for x in tpl)
+        o = w.outcome(fn, tensor_indices=inp, target_idx_names={k: list(v) for k, v in tg.items()})
+        if o.kind != "return" or not isinstance(o.value, tuple) or len(o.value) != 2:
+            ctx.bad(rule, fn, f"minimize_tensor_indices on {label}: {o}", key=f"min {label}")
+            return
+        res, perms = o.value
+        out = [(r.attrs.get("name"), w.space_spin(r)[1]) if isinstance(r, Obj) else r for r in res]
+        # (1) the permutations reproduce the result
+        cur = list(inp)
+        for _, p, q in perms:
+            cur = [q if c is p else p if c is q else c for c in cur]
+        # (2) expected: targets stay, the others get the lowest free names of their (space, spin) in order of first appearance
+        want_map = {}
+        taken = {}
+        for x in tpl:
+            if x in want_map:
+                continue
+            key = (_space(x[0]), x[1])
+            tnames = set(tg.get(key, ()))
+            if x[0] in tnames:
+                want_map[x] = x
+                continue
+            k = taken.get(key, 0)
+            want_map[x] = (_lowest(k + 1, tnames, key[0])[k], x[1])
+            taken[key] = k + 1
+        want = [want_map[x] for x in tpl]
+        fmt = lambda xs: " ".join(n + ("_" + s if s else "") for n, s in xs)
+        same = len(cur) == len(res) and all(c is r for c, r in zip(cur, res))
+        ctx.check(rule, fn, out == want and same, f"{label} -> {fmt(want)}",
+                  f"minimize_tensor_indices({label}) gives {fmt(out) if all(isinstance(x, tuple) for x in out) else out} "
+                  f"(the returned permutations give {[w.describe(c) for c in cur]}); the lowest unused non-target names in order of "
+                  f"first appearance are {fmt(want)}", key=f"min {label}")
     names = ["i", "j", "k", "a", "b"]
     targets_list = [{}, {("occ", ""): ["j"]}, {("occ", ""): ["i"], ("virt", ""): ["a"]}, {("occ", ""): ["k", "j"]}]
     n = 0
@@ -519,87 +899,13 @@ def r08g(ctx):
         for tpl in itertools.product(names, repeat=length):
             for tg in targets_list:
                 n += 1
-                inp = tuple(sym(x) for x in tpl)
-                kind, val = Interp(env, what="minimize_tensor_indices").call(
-                    fn, {"tensor_indices": inp, "target_idx_names": {k: list(v) for k, v in tg.items()}})
-                label = f"{''.join(tpl)} targets={sorted(x for v in tg.values() for x in v)}"
-                if kind != "return":
-                    ctx.bad(rule, fn, f"minimize_tensor_indices raised {val} on {label}", key=f"min {label}")
-                    continue
-                res, perms = val
-                out = [r.name for r in res]
-                # (1) the permutations reproduce the result
-                cur = list(tpl)
-                for p, q in perms:
-                    cur = [q.name if c == p.name else p.name if c == q.name else c for c in cur]
-                # (2) expected: targets stay, the others get the lowest free names in order of first appearance
-                tnames = {x for v in tg.values() for x in v}
-                want_map = {}
-                free = {sp: [c for c in base[sp] if c not in tnames] for sp in base}
-                for x in tpl:
-                    if x in want_map:
-                        continue
-                    want_map[x] = x if x in tnames else free[space[x[0]]].pop(0)
-                want = [want_map[x] for x in tpl]
-                ok = out == want and cur == out
-                ctx.check(rule, fn, ok, f"{label} -> {''.join(want)}",
-                          f"minimize_tensor_indices({label}) gives {''.join(out)} (permutations give {''.join(cur)}); the lowest "
-                          f"unused non-target names in order of first appearance are {''.join(want)}", key=f"min {label}")
+                evaluate(tuple((x, "") for x in tpl), tg, f"{''.join(tpl)} targets={sorted(x for v in tg.values() for x in v)}")
+    sp = [("i", "a"), ("j", "a"), ("i", "b"), ("a", "a"), ("b", "b")]
+    for tpl in itertools.product(sp, repeat=2):
+        for tg in ({}, {("occ", "a"): ["i"]}, {("occ", "b"): ["i"], ("virt", "a"): ["a"]}):
+            n += 1
+            evaluate(tpl, tg, f"{' '.join(a + '_' + s for a, s in tpl)} targets={sorted((k[1], x) for k, v in tg.items() for x in v)}")
     ctx.floor(rule, "index tuples minimised", n, 400)
-
-
-class _IdDict(dict):
-    """dict keyed by abstract records (identity)"""
-
-    def __init__(self, d=None):
-        super().__init__()
-        self._keys = {}
-        for k, v in (d or {}).items():
-            self[k] = v
-
-    def __setitem__(self, k, v):
-        self._keys[id(k)] = k
-        super().__setitem__(id(k), v)
-
-    def __getitem__(self, k):
-        return super().__getitem__(id(k))
-
-    def __contains__(self, k):
-        return super().__contains__(id(k))
-
-    def __delitem__(self, k):
-        super().__delitem__(id(k))
-        del self._keys[id(k)]
-
-    def get(self, k, default=None):
-        return super().get(id(k), default)
-
-    def items(self):
-        return [(self._keys[i], v) for i, v in super().items()]
-
-    def keys(self):
-        return [self._keys[i] for i in super().keys()]
-
-    def update(self, other):
-        for k, v in (other.items() if hasattr(other, "items") else other):
-            self[k] = v
-
-    def __iter__(self):
-        return iter(self.keys())
-
-    def __bool__(self):
-        return len(self) > 0
-
-
-def _get(d, k):
-    for kk, v in d.items():
-        if kk is k:
-            return v
-    return k
-
-
-def _show(sub):
-    return "{" + ", ".join(f"{k.name}->{v.name}" for k, v in sub.items()) + "}"
 
 
 def run(ctx):
